@@ -125,7 +125,7 @@ class Universe:
             extra = r.choice(self.groups)
         elif flt == F.domain_skillrq:
             extra = r.choice(self.skill_types)
-        return dict(filter=int(flt), extra=extra, tgt=r.choice(self.targets),
+        return dict(filter=int(flt), extra=extra, tgt=r.choice(self.gen_attrs),
                     op=int(r.choice([OP.post_percent, OP.post_mul, OP.mod_add])),
                     agg=int(r.choice([AG.maximum, AG.minimum, AG.stack])))
 
@@ -151,6 +151,12 @@ class Universe:
         elif flt in (F.domain_skillrq, F.owner_skillrq):
             extra = r.choice(self.skill_types + [-1])
         op = r.choice(list(OP))
+        if tgt in (int(AttrId.cpu), int(AttrId.power)):
+            # two-digit rounding is discontinuous: keep the arithmetic on these
+            # attributes exact in binary64 (dyadic sources, no division/percent)
+            src = r.choice(self.base_attrs)
+            op = r.choice([OP.pre_assign, OP.pre_mul, OP.mod_add, OP.mod_sub, OP.post_mul,
+                           OP.post_mul_immune, OP.post_assign])
         agg = r.choice([AG.stack] * 4 + [AG.minimum, AG.maximum])
         key = None if agg == AG.stack else r.choice([1, 2])
         if self.malformed and r.random() < 0.3:
